@@ -47,12 +47,10 @@ def thresholdAbsolute (W : AMat Rat n) (thr : Rat) : AMat Rat n :=
 
 /-! ## threshold_proportional -/
 
-/-- one cell of `np.isclose(a, b)` with the default `rtol=1e-5, atol=1e-8`: `|a - b| <= atol + rtol * |b|` -/
-def closeCell (a b : Rat) : Bool := absR (a - b) ≤ 1 / 100000000 + 1 / 100000 * absR b
-
-/-- `np.allclose(W, W.T)` -/
-def allclose (W : AMat Rat n) : Bool :=
-  (List.finRange n).all fun i => (List.finRange n).all fun j => closeCell (W.get i j) (W.get j i)
+/-- `np.array_equal(W, W.T)` : exact symmetry (the code's test since /repo 98d0750; it was `np.allclose` before, which merged
+nearly equal reciprocal weights into one connection) -/
+def arrayEqualT (W : AMat Rat n) : Bool :=
+  (List.finRange n).all fun i => (List.finRange n).all fun j => W.get i j == W.get j i
 
 /-- `W[np.tril_indices(n)] = 0` : lower triangle including the diagonal -/
 def dropLower (W : AMat Rat n) : AMat Rat n := AMat.ofFn fun i j => if j.val ≤ i.val then 0 else W.get i j
@@ -64,7 +62,7 @@ structure Pre (n : Nat) where
 
 def pre (W : AMat Rat n) : Pre n :=
   let W0 := zeroDiag W
-  if allclose W0 then ⟨dropLower W0, true⟩ else ⟨W0, false⟩
+  if arrayEqualT W0 then ⟨dropLower W0, true⟩ else ⟨W0, false⟩
 
 def udOf (sym : Bool) : Nat := if sym then 2 else 1
 
